@@ -952,6 +952,16 @@ impl<'a> Engine<'a> {
                     let more = if p.is_empty() { vec![0x31, 0x32] } else { p[..p.len().min(4)].to_vec() };
                     junk.push(vec![Node { field: "more".into(), tag: vec![], len: Len::None, apdu: false, payload: Payload::Leaf(more), prefix_override: None }]);
                 }
+                // every attractive continuation once more behind one to three zero bytes ("filler" in some TLV dialects)
+                let with_filler: Vec<Vec<Node>> = junk
+                    .iter()
+                    .map(|j| {
+                        let mut v = vec![Node { field: "filler".into(), tag: vec![], len: Len::None, apdu: false, payload: Payload::Leaf(vec![0u8; 1 + rng.below(3) as usize]), prefix_override: None }];
+                        v.extend(j.iter().cloned());
+                        v
+                    })
+                    .collect();
+                junk.extend(with_filler);
                 for j in junk {
                     let mut t = tree.clone();
                     let s = t.struct_at_mut(&nr.path).unwrap();
